@@ -468,6 +468,7 @@ const REQUIRED_PROBES: &[&str] = &[
     "json_host_btreemap",
     "json_host_tuple",
     "json_host_stream",
+    "json_api_via_value",
     "rt_serde_value_deserializers_ok",
     "toml_rt_ok",
     "toml_accept_valid",
@@ -893,10 +894,13 @@ fn main() {
     let t0 = Instant::now();
     let mut total = BatchStats::default();
     let mut failing: Option<(u64, u64, Vec<(usize, Case, Vec<Violation>)>)> = None;
-    for s in &seeds {
+    for (k, s) in seeds.iter().enumerate() {
         let b = run_batch(*s, runs, a.workers, &known);
         let ff = b.first_fail.clone();
         total.merge(b);
+        if seeds.len() > 1 {
+            eprintln!("progress: base seed {}/{} ({}) done, {} runs so far, {:.0}s", k + 1, seeds.len(), s, total.runs, t0.elapsed().as_secs_f64());
+        }
         if let Some((idx, fails)) = ff {
             failing = Some((*s, idx, fails));
             break;
